@@ -319,6 +319,10 @@ func (e *Effects) WritesThrough(fn *ssa.Function, idx int) []string {
 // whose address is taken from package-level storage.
 var readOnlyExternal = map[string]bool{
 	"sync.(*Once).Do": false,
+	// a pool hands out and takes back scratch objects; it is safe for concurrent use and carries no result from one
+	// call to the next as long as nothing taken from it escapes (rule R3.13 checks that)
+	"sync.(*Pool).Get": true,
+	"sync.(*Pool).Put": true,
 }
 
 // addrOfGlobal: v is the address of a module package-level variable or of a
